@@ -156,9 +156,10 @@ Definition demo_calls : list ucall :=
   [ {| u_model := VStr "m1"; u_globals := VRef 5; u_locals := VNone; u_module := VNone; u_macros := VNone |};
     {| u_model := VStr "m2"; u_globals := VRef 5; u_locals := VRef 6; u_module := VNone; u_macros := VNone |};
     {| u_model := VStr "m3"; u_globals := VNone; u_locals := VRef 6; u_module := VGlobal "mod"; u_macros := VNone |} ].
-Example demo_restores :
+Definition demo_run : Prop :=
   match run_calls (nr demo_oracle) demo_calls (demo_heap, []) with
   | Some (h', log') => hy_entry h' 5 = Some (Some (VRef 7)) /\ hy_entry h' 6 = Some None /\ List.length log' = 6
   | None => False
   end.
+Example demo_restores : demo_run.
 Proof. vm_compute. repeat split. Qed.
